@@ -444,6 +444,12 @@ func familyEvents(c *Ctx, fi *FuncInfo, helpers map[*types.Func]*helperInfo, eOb
 		sort.SliceStable(calls, func(i, j int) bool { return calls[i].End() < calls[j].End() })
 		for _, call := range calls {
 			d := &addEvData{call: call, args: call.Args}
+			if len(curFrames) > 0 {
+				d.args = nil
+				for _, a := range call.Args {
+					d.args = append(d.args, viaFrames(info, a))
+				}
+			}
 			if as := assignedFromCall(info, n, call); as != nil {
 				if len(as) >= 1 {
 					d.ok = as[0]
